@@ -41,6 +41,50 @@ type G struct {
 	Tier  string
 	emit  func([]string)
 	Cases int
+	// shard index / number of shards of this generator process (see Shard)
+	shard, shards int
+	fixed         int // number of Each calls so far
+}
+
+// Shard and Shards tell a generator which part of an exhaustive or fixed enumeration this process is to
+// emit.  tools/check.py starts one generator process per shard, `h gen <stream> <VERIF_SEED*1000+shard> <tier>`,
+// with VERIF_SHARDS=<number of shards> in the environment.  The random part of a generator differs per shard
+// because the seed does; an exhaustive or fixed part must be divided (`if i%g.Shards() == g.Shard()`), or
+// emitted by shard 0 only (`g.Shard() == 0`), otherwise the same cases are run, and counted in the evidence,
+// once per shard.  Started by hand with an arbitrary seed (seed%1000 not below the number of shards) the
+// process is the only shard and emits everything.
+func (g *G) Shard() int { return g.shard }
+func (g *G) Shards() int {
+	if g.shards < 1 {
+		return 1
+	}
+	return g.shards
+}
+
+// Mine reports whether item i of an enumeration belongs to this shard.
+func (g *G) Mine(i int) bool { return i%g.Shards() == g.Shard() }
+
+// Each is Case for the cases of an exhaustive or fixed enumeration: the calls are dealt round-robin to the
+// shards, so that every such case is emitted (run, counted) by exactly one generator process of a check.
+func (g *G) Each(ops []string) {
+	if g.Mine(g.fixed) {
+		g.Case(ops)
+	}
+	g.fixed++
+}
+
+// setShard derives shard and shards from the seed argument and VERIF_SHARDS (default: 2 quick, 8 thorough,
+// the defaults of tools/check.py).
+func (g *G) setShard(seed int64) {
+	n := g.Scale(2, 8)
+	if v, err := strconv.Atoi(os.Getenv("VERIF_SHARDS")); err == nil && v > 0 {
+		n = v
+	}
+	sh := int(((seed % 1000) + 1000) % 1000)
+	if sh >= n {
+		sh, n = 0, 1
+	}
+	g.shard, g.shards = sh, n
 }
 
 func (g *G) Thorough() bool { return g.Tier == "thorough" }
@@ -242,6 +286,7 @@ func main() {
 		}
 		seed, _ := strconv.ParseInt(os.Args[3], 10, 64)
 		g := &G{R: rand.New(rand.NewSource(seed)), Tier: os.Args[4]}
+		g.setShard(seed)
 		g.emit = func(ops []string) {
 			for _, o := range ops {
 				out.WriteString(o)
